@@ -43,6 +43,17 @@ Slice(p, lo, hi) ==
     [dir |-> p.dir, inv |-> SubSeq(p.inv, lo + 1, hi), src |-> SubSeq(p.src, lo + 1, hi)]
 Index(p, i) == Slice(p, i, i + 1)
 
+(* Python keys: a negative bound or index x means x + len; an omitted lower bound is 0, an omitted    *)
+(* upper bound is len.  port[lo:hi] with olo / ohi telling that the bound was omitted; port[i] for    *)
+(* -len <= i < len.                                                                                    *)
+Norm(x, w) == IF x < 0 THEN x + w ELSE x
+KeyLo(p, lo, olo) == IF olo THEN 0 ELSE Norm(lo, Width(p))
+KeyHi(p, hi, ohi) == IF ohi THEN Width(p) ELSE Norm(hi, Width(p))
+SliceKey(p, lo, olo, hi, ohi) == Slice(p, KeyLo(p, lo, olo), KeyHi(p, hi, ohi))
+IndexKey(p, i) ==
+    IF Mutant = "neg_index_empty" /\ i = -1 THEN Slice(p, Width(p) - 1, Width(p) - 1)   \* [-1:0] taken literally
+    ELSE Index(p, Norm(i, Width(p)))
+
 (* ~port: "the same effect as adding inverters to the i and o members of a buffer for that port" *)
 Invert(p) == IF Mutant = "invert_same" THEN p ELSE [p EXCEPT !.inv = Not(p.inv)]
 
@@ -114,27 +125,29 @@ EncObs(ob) == <<IF ob.ov THEN BitsToNat(ob.po) ELSE -1, IF ob.ov THEN BitsToNat(
 (* a program is a sequence of records evaluated on a stack:                                          *)
 (*   [op |-> "leaf", dir, w, form |-> "seq", inv]  push a freshly constructed port, invert=inv       *)
 (*   [op |-> "leaf", dir, w, form |-> "bool", b]   the same with invert=b (one bool for all wires)   *)
-(*   [op |-> "slice", lo, hi] [op |-> "index", i] [op |-> "invert"]   replace the top                *)
+(*   [op |-> "slice", lo, olo, hi, ohi] [op |-> "index", i] [op |-> "invert"]   replace the top       *)
+(*        (port[lo:hi], olo / ohi = that bound is omitted; negative lo, hi, i count from the end)     *)
 (*   [op |-> "concat"]  replace the two topmost ports p (below) and q (top) by p + q, or fail       *)
-(* entries carry the nesting depth d of the expression that produced them                            *)
+(* entries carry the nesting depth d of the expression that produced them and u = it contains a       *)
+(* slice / index / invert                                                                               *)
 Max(a, b) == IF a >= b THEN a ELSE b
 Start == [stack |-> <<>>, nleaf |-> 0, err |-> ""]
 Top(st) == st.stack[Len(st.stack)]
 SetTop(st, e) == [st EXCEPT !.stack = [@ EXCEPT ![Len(@)] = e]]
 ApplyOp(st, op) ==
     CASE op.op = "leaf" ->
-            [st EXCEPT !.stack = Append(@, [p |-> LeafOfOp(st.nleaf + 1, op), d |-> 0]),
+            [st EXCEPT !.stack = Append(@, [p |-> LeafOfOp(st.nleaf + 1, op), d |-> 0, u |-> FALSE]),
                        !.nleaf = @ + 1]
-      [] op.op = "slice"  -> SetTop(st, [p |-> Slice(Top(st).p, op.lo, op.hi), d |-> Top(st).d + 1])
-      [] op.op = "index"  -> SetTop(st, [p |-> Index(Top(st).p, op.i), d |-> Top(st).d + 1])
-      [] op.op = "invert" -> SetTop(st, [p |-> Invert(Top(st).p), d |-> Top(st).d + 1])
+      [] op.op = "slice"  -> SetTop(st, [p |-> SliceKey(Top(st).p, op.lo, op.olo, op.hi, op.ohi), d |-> Top(st).d + 1, u |-> TRUE])
+      [] op.op = "index"  -> SetTop(st, [p |-> IndexKey(Top(st).p, op.i), d |-> Top(st).d + 1, u |-> TRUE])
+      [] op.op = "invert" -> SetTop(st, [p |-> Invert(Top(st).p), d |-> Top(st).d + 1, u |-> TRUE])
       [] op.op = "concat" ->
             LET n == Len(st.stack)
                 a == st.stack[n - 1]
                 b == st.stack[n]
             IN IF ConcatOK(a.p, b.p)
                THEN [st EXCEPT !.stack = Append(SubSeq(@, 1, n - 2),
-                                                [p |-> Concat(a.p, b.p), d |-> Max(a.d, b.d) + 1])]
+                                                [p |-> Concat(a.p, b.p), d |-> Max(a.d, b.d) + 1, u |-> a.u \/ b.u])]
                ELSE [st EXCEPT !.err = "ValueError"]
 RECURSIVE RunFrom(_, _)
 RunFrom(st, prog) == IF prog = <<>> THEN st ELSE RunFrom(ApplyOp(st, Head(prog)), Tail(prog))
@@ -158,6 +171,16 @@ SliceLaw(p) ==
         /\ Concat(Slice(p, 0, m), Slice(p, m, Width(p))) = p
         /\ m < Width(p) => /\ Index(p, m).inv = <<p.inv[m + 1]>>
                            /\ Index(p, m).src = <<p.src[m + 1]>>
+(* keys counted from the end and omitted bounds select the same wires as their explicit forms *)
+KeyLaw(p) ==
+    LET w == Width(p) IN
+    /\ \A i \in 1..w : /\ IndexKey(p, -i) = Index(p, w - i) /\ Width(IndexKey(p, -i)) = 1
+                       /\ IndexKey(p, -i).inv = <<p.inv[w - i + 1]>>
+                       /\ SliceKey(p, -i, FALSE, 0, TRUE) = Slice(p, w - i, w)
+                       /\ SliceKey(p, 0, TRUE, -i, FALSE) = Slice(p, 0, w - i)
+                       /\ SliceKey(p, -i, FALSE, 0, TRUE) = Concat(IndexKey(p, -i), Slice(p, w - i + 1, w))
+    /\ SliceKey(p, 0, TRUE, 0, TRUE) = p
+    /\ w > 0 => IndexKey(p, -1) = SliceKey(p, -1, FALSE, 0, TRUE)
 (* widths add; the operands can be recovered from the sum wire for wire *)
 ConcatLaw(p, q) ==
     ConcatOK(p, q) =>
